@@ -1,6 +1,7 @@
 package main
 
 import (
+	"strconv"
 	"encoding/json"
 	"fmt"
 	"go/constant"
@@ -21,6 +22,7 @@ import (
 //   frames:C   no write reachable from an entry point targets caller-owned memory (C10)
 //   frames:G   no write reachable from an entry point targets package-level memory (C12, C11)
 //   commute    every range over a map has an order-independent effect (C11)
+//   bounded    the property's harness under /verif/replay run as a bounded check of the real code (never counted as proved)
 //   logonly    code that is control-dependent on logger state has no other effect (C13)
 func runEngines(p *Program, u *Universe, pc *PropConfig, res *checkResult, tier string) {
 	for _, e := range pc.Engines {
@@ -35,6 +37,8 @@ func runEngines(p *Program, u *Universe, pc *PropConfig, res *checkResult, tier 
 			runNondetScan(p, pc, res)
 		case strings.HasPrefix(e, "cursor:"):
 			runCursor(p, pc, res, strings.TrimPrefix(e, "cursor:"))
+		case e == "bounded":
+			runBounded(p, pc, res)
 		}
 	}
 }
@@ -121,7 +125,13 @@ func runFrames(p *Program, pc *PropConfig, res *checkResult, which string) {
 			}
 			concrete := false
 			if rr := tryFrameReplay(p, pc.ID, which, w, root); rr != nil {
-				rec["replay"] = rr
+				rr2 := map[string]interface{}{}
+	for k, v := range rr {
+		if k != "full_output" {
+			rr2[k] = v
+		}
+	}
+	rec["replay"] = rr2
 				if c, _ := rr["confirmed"].(bool); c {
 					concrete = true
 					rec["concrete_failing_input"] = true
@@ -195,7 +205,7 @@ func runOverlayTests(repo, pkgDir string, files map[string]string, run string) (
 	data, _ := json.Marshal(map[string]map[string]string{"Replace": rep})
 	ovf := filepath.Join(tmp, "overlay.json")
 	os.WriteFile(ovf, data, 0o644)
-	args := []string{"test", "-overlay", ovf, "-vet=off", "-count=1", "-timeout", "120s", "-run", run, "./" + pkgDir}
+	args := []string{"test", "-overlay", ovf, "-vet=off", "-count=1", "-v", "-timeout", "120s", "-run", "^(" + run + ")$", "./" + pkgDir}
 	cmd := exec.Command("go", args...)
 	cmd.Dir = repo
 	cmd.Env = append(os.Environ(), "GOFLAGS=-mod=mod", "GOPROXY=off", "GOSUMDB=off", "GOTOOLCHAIN=local")
@@ -487,8 +497,90 @@ func attachReplay(path string, rr map[string]interface{}, concrete bool) {
 	if json.Unmarshal(data, &rec) != nil {
 		return
 	}
-	rec["replay"] = rr
+	rr2 := map[string]interface{}{}
+	for k, v := range rr {
+		if k != "full_output" {
+			rr2[k] = v
+		}
+	}
+	rec["replay"] = rr2
 	rec["concrete_failing_input"] = concrete
 	out, _ := json.MarshalIndent(rec, "", " ")
 	os.WriteFile(path, out, 0o644)
+}
+
+var rxGovcCases = regexp.MustCompile(`GOVC-CASES evaluations=(\d+) distinct_nontrivial=(\d+) rule=(.*)`)
+var rxGovcSample = regexp.MustCompile(`GOVC-SAMPLE (.*)`)
+var rxGovcFail = regexp.MustCompile(`GOVC-FAIL (\S+) :: (.*)`)
+
+// runBounded runs the property's harness on the real code (go test -overlay, nothing is written
+// to /repo) as a BOUNDED check: a finite, enumerated family of inputs with the property's
+// observable statement as oracle. Each enumerated case is one bounded obligation; a failing
+// case is a violation with a concrete failing input. It is labelled bounded in the evidence
+// and never counted as proved.
+func runBounded(p *Program, pc *PropConfig, res *checkResult) {
+	h, ok := replayHarnesses[pc.ID]
+	if !ok {
+		res.undecided = append(res.undecided, "bounded: no harness for "+pc.ID)
+		return
+	}
+	rr := runHarness(p, pc.ID)
+	if rr == nil {
+		res.undecided = append(res.undecided, "bounded: harness files missing for "+pc.ID)
+		return
+	}
+	out, _ := rr["full_output"].(string)
+	failedRun, _ := rr["failed"].(bool)
+	findings := loadFindings()
+	fails := map[string]string{}
+	var order []string
+	for _, m := range rxGovcFail.FindAllStringSubmatch(out, -1) {
+		if _, seen := fails[m[1]]; !seen {
+			order = append(order, m[1])
+		}
+		fails[m[1]] = m[2]
+	}
+	if m := rxGovcCases.FindStringSubmatch(out); m != nil {
+		ev, _ := strconv.Atoi(m[1])
+		dn, _ := strconv.Atoi(m[2])
+		res.extra["evaluations"] = ev
+		res.extra["distinct_nontrivial"] = dn
+		res.extra["rule"] = "bounded harness " + h.test + ": " + m[3]
+	}
+	for _, m := range rxGovcSample.FindAllStringSubmatch(out, 4) {
+		res.samples = append(res.samples, map[string]interface{}{"function": "bounded:" + h.test, "case": m[1]})
+	}
+	res.extra["bounded"] = map[string]interface{}{"harness": h.test, "input_space": h.input, "command": rr["command"], "failing_cases": len(fails), "label": "bounded (enumerated inputs on the real code; not a proof)"}
+	res.obligations++
+	if failedRun && len(fails) == 0 {
+		// build failure, panic outside a case, timeout: report with the output, no concrete case
+		path := writeSimpleReplay(pc.ID, "bounded:"+h.test, "harness-run", "the harness did not complete: "+tail(out, 1500))
+		attachReplay(path, rr, false)
+		addViolationLine(res, fmt.Sprintf("VIOLATION property=%s replay=%s no-failing-input-found", pc.ID, path))
+		res.violations = append(res.violations, "bounded:"+h.test+" harness-run: did not complete")
+		return
+	}
+	if len(fails) == 0 {
+		res.discharged++
+		res.perSolver["bounded-harness"]++
+		res.samples = append(res.samples, map[string]interface{}{"function": "bounded:" + h.test, "obligation": "all-cases", "verdict": "every enumerated case satisfied the oracle (" + h.input + ")"})
+		return
+	}
+	allKnown := true
+	for _, key := range order {
+		name := "case@" + key
+		if f := matchFinding(findings, pc.ID, "bounded:"+h.test, name); f != nil {
+			res.known = append(res.known, "bounded:"+h.test+" "+name)
+			fmt.Printf("KNOWN-FINDING: property=%s bounded:%s %s: %s (witness: %s)\n", pc.ID, h.test, name, f.What, f.Witness)
+			continue
+		}
+		allKnown = false
+		path := writeSimpleReplay(pc.ID, "bounded:"+h.test, name, fails[key])
+		attachReplay(path, map[string]interface{}{"command": rr["command"], "confirmed": true, "output": "GOVC-FAIL " + key + " :: " + fails[key], "input": key}, true)
+		addViolationLine(res, fmt.Sprintf("VIOLATION property=%s replay=%s", pc.ID, path))
+		res.violations = append(res.violations, "bounded:"+h.test+" "+name+": "+fails[key])
+	}
+	if allKnown {
+		res.discharged++
+	}
 }
